@@ -300,6 +300,65 @@ class Env:
                 raise Abort("format on a non-string node", "C16", node["path"])
             node["format"] = st["regex"]
 
+    def function_def(self, st):
+        """name T = (fname) [unit] — value computed by a registered callback."""
+        fn = st["fn"]
+        path = self.register(st["indent"], st["name"])
+        if path in self.nodes:
+            raise Unspecified("function value for an existing node")
+        typ = st["type"]
+        self.need_unit(st.get("unit"))
+        if fn["kind"] == "raise":
+            raise Abort("registered function raises", "C17", st["fname"])
+        if fn["kind"] == "double":
+            src = self.nodes.get(fn["path"])
+            if src is None or src["type"] != "float" or typ != "float" or \
+                    not isinstance(src["value"], float) or src["unit"] != st.get("unit"):
+                raise Unspecified("callback reads a node it cannot double")
+            value = 2.0 * src["value"]
+        else:
+            value = cast(typ, fn["value"])
+        if value is None or value == 0 or value is False or value == "":
+            raise Unspecified("callback returning a falsy value")
+        node = new_node(path, typ, unit=st.get("unit"))
+        node["value"] = value
+        node["has_value"] = True
+        self.nodes[path] = node
+        self.last_new = path
+        return path
+
+    def compare_def(self, st):
+        """name bool = ("{?left} op {?right}") — a node-to-node comparison (both numeric,
+        same dimension); used as a history step that reads two stored nodes."""
+        path = self.register(st["indent"], st["name"])
+        if path in self.nodes:
+            raise Unspecified("comparison result for an existing node")
+        a, b = self.nodes.get(st["left"]), self.nodes.get(st["right"])
+        if a is None or b is None:
+            raise Abort("comparison references a missing node", "C18", [st["left"], st["right"]])
+        for n in (a, b):
+            if n["type"] not in ("int", "float") or n["value"] is None or \
+                    isinstance(n["value"], list):
+                raise Unspecified("comparison of non-scalar or value-less nodes")
+        if a["type"] != b["type"]:
+            raise Unspecified("comparison of an int node with a float node")
+        if (a["unit"] is None) != (b["unit"] is None):
+            raise Unspecified("comparison of a unit-less node with a node with unit")
+        va, vb = float(a["value"]), float(b["value"])
+        if a["unit"] is not None:
+            if self.units.dims(a["unit"]) != self.units.dims(b["unit"]):
+                raise Unspecified("comparison across dimensions")
+            va = va * self.units.factor(a["unit"]) / self.units.factor(b["unit"])
+        if abs(va - vb) <= 1e-3 * max(abs(va), abs(vb), 1e-300):
+            raise Unspecified("comparison of nearly equal values")
+        value = {"<": va < vb, ">": va > vb, "<=": va <= vb, ">=": va >= vb}[st["cmp"]]
+        node = new_node(path, "bool")
+        node["value"] = value
+        node["has_value"] = True
+        self.nodes[path] = node
+        self.last_new = path
+        return path
+
     def unit_def(self, st):
         self.need_unit(st.get("unit"))
         self.units.define(st["name"], st["value"], st.get("unit"))
@@ -431,6 +490,8 @@ class Env:
         if st["path"].endswith("dip"):
             if f["kind"] != "dip":
                 raise Unspecified("text content under a .dip name")
+            if any(x["k"] == "fn" for x in f["stmts"]):
+                raise Unspecified("remote source calling functions of the including parser")
             sub = Env()
             sub.sources = {k: (dict(v, env=v["env"].copy()) if v["kind"] == "dip" else dict(v))
                            for k, v in self.sources.items()}
@@ -510,7 +571,15 @@ def eval_condition(env, node, value, margin=0.0):
             if unit is not None and node["unit"] is not None and unit != node["unit"]:
                 rhs = rhs * env.units.factor(unit) / env.units.factor(node["unit"])
             lhs = float(value)
-            near = abs(lhs - rhs) <= margin * max(abs(lhs), abs(rhs), 1e-300)
+            scale = max(abs(lhs), abs(rhs), 1e-300)
+            if lhs != rhs and abs(lhs - rhs) <= 1e-12 * scale:
+                # the same number up to the rounding of a unit conversion (generated values
+                # are short decimals, two different ones are never this close): the closed
+                # comparisons hold, the strict ones are left open
+                if op in ("==", "<=", ">="):
+                    return True
+                return None
+            near = abs(lhs - rhs) <= margin * scale
             if op in ("==", "!="):
                 if near and lhs != rhs:
                     return None
@@ -676,6 +745,10 @@ def render(st):
     if k == "import":
         name = (st["name"] + " ") if st.get("name") else ""
         return ind + name + ref_text(st["ref"])
+    if k == "cmp_expr":
+        return ind + f"{st['name']} bool = (\"{{?{st['left']}}} {st['cmp']} {{?{st['right']}}}\")"
+    if k == "fn":
+        return ind + f"{st['name']} {type_text(st)} = ({st['fname']}){u}"
     if k == "raw":
         return st["text"]
     raise ValueError(k)
@@ -726,6 +799,10 @@ def run_statements(env, stmts, files):
             env.inject(st)
         elif k == "import":
             env.import_nodes(st)
+        elif k == "fn":
+            env.function_def(st)
+        elif k == "cmp_expr":
+            env.compare_def(st)
         elif k == "raw":
             if st.get("aborts"):
                 raise Abort(st["aborts"], st.get("prop", "C13"))
